@@ -1,0 +1,28 @@
+//go:build verif
+
+// Contract for the segmented reader of the streaming Merkle tree (comment-only). Tree.Push keeps the slice it is
+// given (as the first element of the proof set when the leaf is the tracked one, and as the node sum of a cached
+// tree), so ReadAll must hand over a buffer of its own for every leaf: the slice passed to Push is backed by an
+// allocation made in the same iteration of the read loop, never by a buffer that a later iteration fills again.
+// The reader and Push are opaque calls (io.ReadFull overwrites the buffer it is given; Push writes the tree).
+
+package merkletree
+
+//@ func io.ReadFull
+//@ assumed io.ReadFull (standard library): copies into buf from the reader and reports how many bytes it copied, at most len(buf), and exactly len(buf) when it returns no error; it keeps no reference to buf
+//@ ensures 0 <= result0 && result0 <= len(buf) && (isnil(result1) ==> result0 == len(buf))
+//@ modifies buf
+//@ end
+
+//@ func Tree.ReadAll
+//@ option opaque-calls
+//@ option nomerge
+//@ option fresh-loop-slices
+//@ requires segmentSize >= 0 && segmentSize <= 1073741824
+//@ loop 0
+//@ + invariant[running] true
+//@ cut before call Push #1
+//@ + invariant[own-buffer] iterfresh(callarg1)
+//@ + invariant[leaf-length] len(callarg1) <= segmentSize
+//@ modifies t
+//@ end
